@@ -25,6 +25,10 @@ Rec   == ndJsonDeserialize(IOEnv.VH_RECS)
 Texts == LET T == ndJsonDeserialize(IOEnv.VH_TEXTS) IN [q \in 1..Len(T) |-> T[q].t]
 Part  == IOEnv.VH_PART
 Excl  == IOEnv.VH_EXCL
+\* which parts the harness was asked to log (only those are compared with the specification in part x4)
+X4Parts == IOEnv.VH_X4PARTS
+HasPart(k) == CASE k = "fi" -> X4Parts \in {"all", "norp"} [] k = "sp" -> X4Parts \in {"all", "norp"}
+                [] k = "rows" -> X4Parts \in {"all", "norp"} [] k = "rp" -> X4Parts \in {"all", "rp"}
 Excluded(ast) == Excl = "F1" /\ Excluded_F1(ast)
 Emit(tag, r) == PrintT("@@" \o tag \o " " \o ToJson(r))
 Pick(S) == IF S = {} THEN <<>> ELSE CHOOSE x \in S : TRUE
@@ -76,6 +80,10 @@ ExpectedBorrowed(ast, ng) ==
    LET nb == Cardinality({k \in 1..Len(Texts) : ExpItems(ast, ng, Texts[k]) = <<>>})
    IN { <<q[1], q[2], nb>> : q \in (0..3) \X (0..7) }
 
+ExpectedCaps(ast, ng) ==
+   UNION { LET t == Texts[k]  o == Offs(t)  f == TLCEval(SearchAll(ast, ng, t))
+           IN { <<k, o[p], 0>> \o CapsToBytes(t, f[p]) : p \in {q \in 0..Len(t) : f[q] # <<>>} } : k \in 1..Len(Texts) }
+
 \* an error history (only with a tiny backtrack limit): the spans before the Err are a prefix of the
 \* reference sequence and nothing comes after the Err
 IsPrefix(a, b) == Len(a) <= Len(b) /\ SubSeq(b, 1, Len(a)) = a
@@ -101,6 +109,36 @@ Verdict(c) ==   \* <<ok?, expected-not-logged, logged-not-expected, #expected ro
      [] Part = "ci" ->
           LET exp == TLCEval(ExpectedFI(c.ast, c.ng))  f == SetOf(c.fi)  g == SetOf(c.ci)
           IN <<f = g /\ g = exp, Pick((f \cup exp) \ g), Pick(g \ (f \cap exp)), Cardinality(exp), 0>>
+     [] Part = "co" ->   \* coherence among RECORDED values only (no reference semantics): C09
+          LET f == SetOf(c.fi)  g == SetOf(c.ci)  cells == SetOf(c.cells)  cells0 == SetOf(c.cells0)
+              CellAt(k) == {r \in cells : r[1] = k /\ r[2] = 0}
+              badCells == {r \in cells : SubSeq(r, 3, 5) # SubSeq(r, 6, 8)}                 \* find_from_pos = captures_from_pos.get(0)
+              bad0 == {r \in cells0 :
+                         \/ SubSeq(r, 3, 5) # SubSeq(r, 6, 8)                                 \* find = captures.get(0)
+                         \/ (r[2] = 1) # (r[3] = 0)                                           \* is_match <=> find is Some
+                         \/ (r[2] = 2) # (r[3] \in {1, 2, 5}) \/ (r[2] = 3) # (r[3] = 3)        \* errors and panics coincide
+                         \/ (IF r[3] = -1 THEN CellAt(r[1]) # {} ELSE CellAt(r[1]) # {<<r[1], 0>> \o SubSeq(r, 3, 8)})   \* find = find_from_pos(.,0)
+                         \/ (r[3] = 0 /\ ~\E x \in f : x[1] = r[1] /\ Len(x) >= 5 /\ x[4] = r[4] /\ x[5] = r[5])}         \* first find_iter item = find
+              orphan == {r \in cells : r[2] = 0 /\ ~\E r0 \in cells0 : r0[1] = r[1]}
+          IN <<f = g /\ badCells = {} /\ bad0 = {} /\ orphan = {}, Pick((f \ g) \cup badCells), Pick((g \ f) \cup bad0 \cup orphan),
+               Cardinality(cells), 0>>
+     [] Part = "x4" ->   \* C04: fancy-regex = regex crate on every entry point; and both = the specification
+          LET Fy == [fi |-> SetOf(c.fi), ci |-> SetOf(c.ci), sp |-> LoggedSP(c), rp |-> SetOf(c.rp), rpb |-> SetOf(c.rpb),
+                    cells |-> SetOf(c.cells), cells0 |-> SetOf(c.cells0), rows |-> SetOf(c.rows)]
+              Rx == [fi |-> SetOf(c.r_fi), ci |-> SetOf(c.r_ci),
+                    sp |-> { <<c.r_sp[j][1], -1>> \o SubSeq(c.r_sp[j], 2, Len(c.r_sp[j])) : j \in 1..Len(c.r_sp) } \cup SetOf(c.r_spn),
+                    rp |-> SetOf(c.r_rp), rpb |-> SetOf(c.r_rpb),
+                    cells |-> SetOf(c.r_cells), cells0 |-> SetOf(c.r_cells0), rows |-> SetOf(c.r_rows)]
+              Ex == [fi |-> IF HasPart("fi") THEN TLCEval(ExpectedFI(c.ast, c.ng)) ELSE {},
+                     sp |-> IF HasPart("sp") THEN TLCEval(ExpectedSP(c.ast, c.ng)) ELSE {},
+                     rows |-> IF HasPart("rows") THEN TLCEval(ExpectedCaps(c.ast, c.ng)) ELSE {},
+                     rp |-> IF HasPart("rp") THEN TLCEval(ExpectedRP(c.ast, c.ng)) ELSE {}]
+              keys == {"fi", "ci", "sp", "rp", "rpb", "cells", "cells0", "rows"}
+              diff == {k \in keys : Fy[k] # Rx[k]}
+              gap == {k \in {"fi", "sp", "rows", "rp"} : HasPart(k) /\ Fy[k] # Ex[k]}
+          IN IF diff # {} THEN LET k == CHOOSE k \in diff : TRUE IN <<FALSE, <<k>> \o Pick(Rx[k] \ Fy[k]), <<k>> \o Pick(Fy[k] \ Rx[k]), Cardinality(Ex.rows) + Cardinality(Ex.rp), 0>>
+             ELSE IF gap # {} THEN LET k == CHOOSE k \in gap : TRUE IN <<FALSE, <<"MODELGAP", k>> \o Pick(Ex[k] \ Fy[k]), <<"MODELGAP", k>> \o Pick(Fy[k] \ Ex[k]), Cardinality(Ex.rows) + Cardinality(Ex.rp), 0>>
+             ELSE <<TRUE, <<>>, <<>>, Cardinality(Ex.rows) + Cardinality(Ex.rp), 0>>
      [] Part = "sp" ->
           LET exp == TLCEval(ExpectedSP(c.ast, c.ng))  log == LoggedSP(c)
           IN <<exp = log, Pick(exp \ log), Pick(log \ exp), Cardinality(exp), 0>>
@@ -116,14 +154,14 @@ Step ==
       IF c.st # "ok"
       THEN /\ ncerr' = ncerr + 1 /\ UNCHANGED <<nok, nrej, nexcl, nitems, npos, nerrh>>
            /\ Emit("CERR", [id |-> c.id, pat |-> c.pat, ek |-> c.ek])
-      ELSE IF Excluded(c.ast)
+      ELSE IF Excluded(c.ast) \/ (Part = "x4" /\ c.r_st # "ok")
       THEN /\ nexcl' = nexcl + 1 /\ UNCHANGED <<nok, nrej, ncerr, nitems, npos, nerrh>>
       ELSE LET v == TLCEval(Verdict(c))
            IN /\ nitems' = nitems + v[4] /\ npos' = npos + (IF v[4] > 0 THEN 1 ELSE 0) /\ nerrh' = nerrh + v[5]
               /\ UNCHANGED <<nexcl, ncerr>>
               /\ IF v[1] THEN nok' = nok + 1 /\ UNCHANGED nrej
                  ELSE /\ nrej' = nrej + 1 /\ UNCHANGED nok
-                      /\ Emit("REJECT", [id |-> c.id, pat |-> c.pat, ast |-> c.ast, ng |-> c.ng, bl |-> c.bl, part |-> Part,
+                      /\ Emit(IF v[2] # <<>> /\ v[2][1] = "MODELGAP" THEN "MODELGAP" ELSE "REJECT", [id |-> c.id, pat |-> c.pat, ast |-> c.ast, ng |-> c.ng, bl |-> c.bl, part |-> Part,
                                          expected_not_logged |-> v[2], logged_not_expected |-> v[3]])
 Done == /\ l = Len(Rec) + 1 /\ l' = l + 1
         /\ Emit("STATS", [records |-> Len(Rec), ok |-> nok, rejected |-> nrej, excluded |-> nexcl, cerr |-> ncerr,
